@@ -3395,9 +3395,12 @@ class HasTraits(CHasTraits, metaclass=MetaHasTraits):
         # Otherwise the local copy of the delegate value was deleted, restore
         # the delegate listener (unless it's already there):
         if name not in dict:
-            self._init_trait_delegate_listener(
-                name, 0, self.__class__.__listener_traits__[name][1]
-            )
+            listener_traits = self.__class__.__listener_traits__
+            # Non-listenable delegates never had a listener to restore.
+            if name in listener_traits:
+                self._init_trait_delegate_listener(
+                    name, 0, listener_traits[name][1]
+                )
 
     def _init_trait_observers(self):
         """ Initialize observers prior to setting object state.
